@@ -91,6 +91,7 @@ def generate(rng, tier, index):
     sc["psutil"] = rng.random() < 0.5  # a (fake) psutil makes the Popen + deadline path of run_subprocess reachable
     sc["stall"] = rng.choice([None, None, None, 1, 2]) if (sc["timeout"] and sc["psutil"] and mode == "honest") else None
     sc["shadow"] = rng.random() < 0.25  # a second Solver on the same backend, used alternately
+    sc["reuse_backend"] = rng.random() < 0.5  # direct configuration: query the same backend object repeatedly
     if direct:
         span = rng.choice([3 * len(decls) + 3, 3 * len(decls) + 3, 150, 1200])
         pool = rng.sample(range(0, max(span, len(decls) + 1)), len(decls))
@@ -337,6 +338,8 @@ def run(sc) -> RunResult:
         solver = cspuz.Solver()
         vars_ = [solver.bool_var() if d["t"] == "b" else solver.int_var(d["lo"], d["hi"]) for d in decls]
     built = []  # realised constraints (direct mode)
+    direct_be = None
+    n_built_sent = 0
     constraints = []
     keys = set()
     saved_cfg = (cspuz.config.backend_path, cspuz.config.solver_timeout)
@@ -389,12 +392,22 @@ def run(sc) -> RunResult:
                         expected_holder.pop("last", None)
                         try:
                             if direct:
-                                be = getattr(sugar_like, CLASS_OF[backend])(vars_)
-                                if n_op % 2 == 0:
-                                    be.add_constraint(list(built))
+                                if sc.get("reuse_backend") and direct_be is not None:
+                                    # the same backend object is queried again: only the constraints posted
+                                    # since the last query are added
+                                    be = direct_be
+                                    new = built[n_built_sent:]
+                                    res.hit("perturb:same_backend_object_queried_again")
                                 else:
-                                    for x in built:
+                                    be = getattr(sugar_like, CLASS_OF[backend])(vars_)
+                                    new = list(built)
+                                if n_op % 2 == 0:
+                                    be.add_constraint(list(new))
+                                else:
+                                    for x in new:
                                         be.add_constraint(x)
+                                direct_be = be
+                                n_built_sent = len(built)
                                 if k == "find_answer":
                                     r = be.solve()
                                 else:
